@@ -11,7 +11,8 @@
    What is NOT a theorem here: that dd.autoref and dd.cudd implement the
    same Boolean algebra and that dd's reordering and garbage collection
    preserve meaning.  dd is outside the model; [C17_full] states the
-   property with that assumption as an explicit hypothesis, and the
+   property with that assumption as an explicit hypothesis (and is proved
+   under it: C17_backend_independent_given_contract), and the
    correspondence run (tools/props/c17.py) validates the assumption
    differentially on every check (2 back ends x 2 translators against one
    model run). *)
@@ -105,6 +106,12 @@ Example C17_fetch_unchecked_refuted :
     fetch_unchecked nat nat s 5%Z = Some 1 /\
     Cache.lookup 5%Z (live nat nat s) = Some d /\ Nat.eqb 1 d = false.
 Proof. exact fetch_unchecked_unsound. Qed.
+
+Example C17_fetch_sound_nonvacuous :
+  exists s s',
+    erun nat nat (fun e => e) Nat.eqb (empty nat nat) [ECache 1 5%Z; EAlloc 2 6%Z] = Some s /\
+    fetch nat nat (fun e => e) Nat.eqb s 5%Z 9%Z = Some (s', Some 1).
+Proof. exact fetch_returns_example. Qed.
 
 (* -------------------------------------------------------------- contexts *)
 (* frame: whatever is done afterwards in either context (declarations,
@@ -204,7 +211,18 @@ Definition C17_full : Prop :=
     iter_add_expr D2 t2 f2 var2 node2 ap12 ap22 toks =
     option_map h (rec_add_expr D1 t1 f1 var1 node1 ap11 ap21 (fun _ _ => None) toks).
 
+(* ... and under that hypothesis the statement is a theorem: the contract
+   about dd is the only thing the differential part of the check stands for *)
+Theorem C17_backend_independent_given_contract : C17_full.
+Proof.
+  unfold C17_full. intros D1 D2 t1 f1 t2 f2 var1 var2 node1 node2 ap11 ap12 ap21 ap22 h
+    Ht Hf Hv Hn H1 H2 HR toks NA.
+  exact (backend_independent D1 D2 t1 f1 t2 f2 var1 var2 node1 node2 ap11 ap12 ap21 ap22 h
+           Ht Hf Hv Hn H1 H2 HR toks NA).
+Qed.
+
 Print Assumptions C17_parsers_agree.
+Print Assumptions C17_backend_independent_given_contract.
 Print Assumptions C17_translators_spec.
 Print Assumptions C17_parsers_agree_instance.
 Print Assumptions C17_fetch_sound.
@@ -214,3 +232,4 @@ Print Assumptions C17_redeclare_guard.
 Print Assumptions C17_idempotent.
 Print Assumptions C17_history_independent.
 Print Assumptions C17_history_example.
+Print Assumptions C17_fetch_sound_nonvacuous.
